@@ -57,8 +57,9 @@ class _TrioIdleCallbackInstrument(trio.abc.Instrument):
 
     def before_io_wait(self, timeout: float) -> None:
         if timeout > 0:
-            for idle_callback in self.idle_callbacks.values():
-                idle_callback()
+            for handle, idle_callback in list(self.idle_callbacks.items()):
+                if handle in self.idle_callbacks:  # not removed by a previous idle callback
+                    idle_callback()
 
 
 class TrioEventLoop(EventLoop):
